@@ -289,8 +289,11 @@ func (c *Collection) PullID(ctx context.Context, id string, opts ...ReadOption) 
 	}
 
 	send := make(chan *ValueChange)
+	// the inner Pull must end when this subscription does, including when the item is removed
+	ctx, cancel := context.WithCancel(ctx)
 	go func() {
 		defer close(send)
+		defer cancel()
 		for change := range c.Pull(ctx, opts...) {
 			if change.Id != id {
 				continue
